@@ -9,7 +9,7 @@ LEVEL_NOTE = ("Trusted base: the pyvc VC generator and its builtin models (own c
               "contracts marked trusted in the evidence file. Termination is not proved.")
 
 CLAIMED = {
-    "C01": ("contract proof: least-index selection post of _trigger (for/else invariant), Events.match, executor all/async_all conjunction, wrapper expected_value",
+    "C01": ("contract proof: least-index selection post of _trigger (for/else invariant), Events.match, executor all/async_all conjunction, wrapper expected_value, from_.any() expansion; bounded scenario layer (reference interpreter) as cross-check and replay search",
             "4.C01"),
     "C02": ("contract proof: group-order and state-view post of _activate over a ghost group log; executor call/async_call 'each applicable callback once, in order'",
             "4.C02"),
@@ -19,31 +19,31 @@ CLAIMED = {
             "4.C04"),
     "C14": ("contract proof: result clause of _activate (before ++ on, 0/1/many rule) on both engines; executor/wrapper value clauses",
             "4.C14"),
-    "C05": ("contract proof, relational: every AsyncEngine / async callbacks function is discharged against the SAME contract class as its sync twin; await-discipline obligations; asyncio primitives assumed",
+    "C05": ("contract proof, relational: every AsyncEngine / async callbacks function (and the async signature_adapter closure) is discharged against the SAME contract class as its sync twin; await-discipline obligations; asyncio primitives assumed; bounded scenario layer and a probe (a sync driver keeps one event loop)",
             "4.C05"),
-    "C10": ("contract proof: state accessors (getter/setters), __init__ model identity, _get_initial_state, for_instance cache invariant, is_active/State.__eq__; frame scan F1",
+    "C10": ("contract proof: state accessors (getter/setters), __init__ model identity, _get_initial_state, for_instance cache invariant, is_active/State.__eq__; frame scan F1; bounded scenario layer; probe for writes to the state field from inside callbacks (outside EnvCB)",
             "4.C10"),
     "C11": ("contract proof: BaseEngine.start two-case post, SyncEngine.start, activate_initial_state, empty-queue no-op clauses of processing_loop, __initial__ branch of _trigger",
             "4.C11"),
     "C06": ("Owicki-Gries outline over the contracts of put / try-acquire / popleft / release: interference obligations per role for the asyncio (await-atomic, AST-scanned premises) and thread models; the thread 'stranded' obligation is a recorded finding with a deterministic two-thread witness",
             "4.C06"),
-    "C07": ("contract proof: two loop invariants + pointwise post of SignatureAdapter.bind_expected against a spec function from the property; Event.__call__ reserved-name filter; extended_kwargs overlay; cache-key lemma (recorded finding)",
+    "C07": ("contract proof: two loop invariants + pointwise post of SignatureAdapter.bind_expected against a spec function from the property; callable_method and both signature_adapter closures (the captured callable is invoked exactly once with the two halves of one fresh binding of exactly these arguments by its OWN signature); Event.__call__ reserved-name filter; extended_kwargs overlay; cache-key lemma (recorded finding); BOUNDED end-to-end layer over all small signature shapes on a real machine (with replays)",
             "4.C07"),
-    "C08": ("contract proof for the closure layer (custom_and/or/not, comparators, constants vs Python semantics incl. short-circuit order), guard conjunction and CallbacksRegistry.check; BOUNDED stand-in (exhaustive <=4 tokens) for the regex/tokenizer text->AST layer",
+    "C08": ("contract proof for the closure layer (custom_and/or/not, comparators, constants vs Python semantics incl. short-circuit order), guard conjunction, CallbacksRegistry.check, and _copy_with_args keeping every spec field; BOUNDED stand-ins: exhaustive <=4 tokens (+ flat chains of 3-4 operands) for the regex/tokenizer text->AST layer, declaration-style layer for cond/unless surviving every rendering",
             "4.C08"),
-    "C09": ("contract proof: BFS invariant of visit_connected_states (sound + closed under targets, LFP schema), iff-posts of the five metaclass checks and of _check",
+    "C09": ("contract proof: BFS invariant of visit_connected_states (sound + closed under targets, LFP schema), iff-posts of the five metaclass checks and of _check, Transition.__init__, from_.any() expansion; BOUNDED definition layer: verdict of the real class statement vs plain graph search (thorough: all graphs <= 3 states x <= 3 transitions)",
             "4.C09"),
-    "C17": ("contract proof: __getstate__ / __setstate__ over the instance __dict__ view; round-trip clauses (options, listeners, engine kind, pending activation) with abstract contracts of the registration/engine helpers",
+    "C17": ("contract proof: __getstate__ / __setstate__ over the instance __dict__ view; round-trip clauses (options, constructor listeners re-registered with the machine, added ones afterwards, engine kind, pending activation) with abstract contracts of the registration/engine helpers; BOUNDED clone layer (original vs deepcopy/pickle clone on random machines and histories); recorded witness",
             "4.C17"),
-    "C18": ("contract proof: nested-loop invariants + post of get_graph (one node per state, one edge per external transition, none for internal), _state_as_node, _transition_as_edge, relative to assumed pydot contracts",
+    "C18": ("contract proof: nested-loop invariants + post of get_graph (one node per state, one edge per external transition, none for internal), _state_as_node, _transition_as_edge, _initial_edge, relative to assumed pydot contracts; BOUNDED diagram layer on the real pydot graph (labels, guards, highlight along random walks)",
             "4.C18"),
-    "C12": ("contract proof of the registry/executor/wrapper chain the providers feed (all providers' wrappers are invoked, guard conjunction across wrappers); BOUNDED stand-in (API layer) for Listeners.search_name/resolve/build and add_listener; recorded witnesses replayed",
+    "C12": ("contract proof: Listeners.search_name (every provider of a name contributes one pair), CallbacksExecutor.add (dedupe by key, one wrapper per new key inserted by priority) and CallbackWrapper.__lt__, the registry/executor/wrapper chain (all providers' wrappers invoked, guard conjunction), combinator keys; BOUNDED API layer for Listeners.resolve/build and add_listener, probe for equal-but-distinct listeners; recorded witnesses replayed",
             "4.C12"),
-    "C15": ("BOUNDED stand-in (API layer: every rendering of random small abstract machines compared on states, events, allowed events) plus recorded witness; builder functions not under contract yet",
+    "C15": ("contract proof of the builders' core (add_transitions, spec add chain, Transition.__init__, _copy_with_args over its real body, from_.any() expansion); BOUNDED layers for the rest: 13 declaration styles of random abstract machines written as class-body source and compared on structure and behaviour, API layer; recorded witness",
             "4.C15"),
-    "C16": ("ownership frame scan over every heap write site of the package (committed ownership table, 171 sites) + StateMachine.__init__ freshness clauses; bounded API layer; recorded witnesses",
+    "C16": ("ownership frame scan over every heap write site of the package (committed ownership table; rebinding of module globals included; the cached event loop must be a threading.local) + StateMachine.__init__/BaseEngine.__init__ freshness clauses; BOUNDED API layer and signature special cases (one class body, one factory, one class name in two definitions); recorded witnesses",
             "4.C16"),
-    "C13": ("contract proof: post of send (the callee is a bound event of that name for EVERY string) over a symbolic attribute table; Event.__call__ queues exactly one item",
+    "C13": ("contract proof: post of send (the callee is a bound event of that name for EVERY string) over a symbolic attribute table; Event.__call__ queues exactly one item; Event.__get__; BOUNDED API layer for the listings (events, allowed_events, bind_events_to)",
             "4.C13"),
 }
 
